@@ -123,10 +123,10 @@ def check(P, R):
              why='a delivered field always holds the complete data of a part that was terminated by a delimiter')
     ii = P.func(f'{MP}:FieldStorage.iter_items')
     gi = ii.cfg
-    nexts = [T.assigned_name_of_call(c) for c in walk_shallow(ii.node) if isinstance(c, ast.Call) and dotted(c.func) == 'next' and len(c.args) == 2]
-    nexts = [x for x in nexts if x]
-    R.require(len(nexts) >= 3, 'iter_items: next(iter, None) pairs not found')
-    hname, dname = nexts[1], nexts[2]
+    from .c07 import section_pairing
+    pr_ = section_pairing(ii)
+    R.require(pr_ is not None, 'iter_items: neither next(iter, None) pairs nor a loop over zip_longest(iter, iter) found')
+    hname, dname = pr_[0], pr_[1]
     nd = [n for n in gi.nodes if n.kind == 'test' and isinstance(strip_not(n.ast)[0], ast.Name) and strip_not(n.ast)[1]
           and strip_not(n.ast)[0].id == dname]
     ok = False
@@ -159,8 +159,14 @@ def check(P, R):
     fc = P.func(f'{BM}:_iter_chunked')
     gc = fc.cfg
     inc = [x for x in walk_shallow(fc.node) if isinstance(x, ast.AugAssign) and isinstance(x.target, ast.Name) and isinstance(x.op, ast.Add) and is_const(x.value, 1)]
-    cnt = inc[0].target.id if inc else '?'
-    cap = [n for n in gc.nodes if n.kind == 'test' and 'buff_size' in names_loaded(n.ast) and cnt in names_loaded(n.ast)]
+    cnts = {x.target.id for x in inc}
+    for lp_ in walk_shallow(fc.node):
+        # `for read_len in count(1)` counts the iterations as well
+        if isinstance(lp_, ast.For) and isinstance(lp_.target, ast.Name) and isinstance(lp_.iter, ast.Call) and \
+                (dotted(lp_.iter.func) or '').split('.')[-1] in ('count', 'range'):
+            cnts.add(lp_.target.id)
+            inc = inc or [lp_]
+    cap = [n for n in gc.nodes if n.kind == 'test' and 'buff_size' in names_loaded(n.ast) and cnts & names_loaded(n.ast)]
     ok = False
     for n in cap:
         reach = gc.reachable_from(T.succ_by_label(n, 'true'))
